@@ -24,6 +24,12 @@ type C08Params struct {
 	// wire, a well-formed variant of it that leaves the server without a common version, suite,
 	// group or signature algorithm is delivered first (a spoofed sender that overtakes the client)
 	HelloAlt string `json:"hello_alt,omitempty"`
+	// Mangle (handshake phase, mode any; non-zero = seed): every copy of one kind of cleartext
+	// handshake message of one sender is replaced in transit by a structurally damaged one -
+	// cut at a drawn offset, a few stray bytes appended, the leading length prefix made to agree
+	// with what is left - so that it reaches the decoder as the message the receiver is waiting
+	// for (an injected one would be taken for a retransmission). Safety clauses only.
+	Mangle uint64 `json:"mangle,omitempty"`
 }
 
 var c08HelloAlts = []string{"legacy-10", "no-sv", "legacy-10+no-sv", "sv-unknown", "legacy-10+sv-unknown", "suites-unknown", "no-groups", "no-keyshare", "no-sigalgs", "no-exts", "version", "compression"}
@@ -67,6 +73,10 @@ func c08Gen(r *rand.Rand, tier string, idx int) any {
 	}
 	if p.Mode == "any" && r.IntN(4) == 0 {
 		p.HelloAlt = c08HelloAlts[r.IntN(len(c08HelloAlts))]
+	}
+	if p.Mode == "any" && p.Variant != "" && r.IntN(2) == 0 {
+		p.Mangle = 1 + r.Uint64N(1<<40)
+		p.N = r.IntN(4) // little else, so that the handshake lives to decode the damaged message
 	}
 	if p.Mode == "any" && r.IntN(5) == 0 {
 		p.Flood = []string{"frags", "frags", "tiny", "empty", "empty-nonempty", "overlap", "seqs", "run", "run"}[r.IntN(9)]
@@ -465,6 +475,52 @@ func c08Run(rc *RunCtx, params any) {
 			alt := wrapCH(alterCH(chs[0].Body, p.HelloAlt), 0, 0x300000)
 			s.Fault("hostile:hello-" + p.HelloAlt)
 			s.After(50*time.Microsecond, func() { n.InjectNow(pair.CAddr, pair.SAddr, alt) })
+		}
+	}
+	if p.Mangle != 0 && p.Mode == "any" {
+		mr := rand.New(rand.NewPCG(p.Mangle, 99))
+		ep := []string{"c", "s"}[mr.IntN(2)]
+		typ := []byte{HTCertificate, HTCertificate, HTCertificate, HTServerKeyExchange, HTServerKeyExchange, 13, 13, HTClientKeyExchange, 15, HTServerHello, HTClientHello, HTHelloVerifyRequest}[mr.IntN(12)]
+		sel := mr.Uint64()
+		n.Rewrite = func(e *Emission) []byte {
+			if e.Ep != ep {
+				return e.Data
+			}
+			out, changed := rewriteUnfragmented(e.Data, typ, func(body []byte) []byte {
+				r := rand.New(rand.NewPCG(sel, uint64(len(body)))) // every copy of the message gets the same damage
+				k := r.IntN(len(body) + 1)
+				switch r.IntN(4) {
+				case 0, 1:
+					k = min(k, r.IntN(9)) // inside the first length prefixes
+				case 2:
+					k = max(0, len(body)-r.IntN(5)) // at the very end
+				}
+				nb := append([]byte(nil), body[:k]...)
+				for j := r.IntN(3); j > 0; j-- {
+					nb = append(nb, byte(r.IntN(256)))
+				}
+				switch r.IntN(4) { // leading length prefix agrees with what is left
+				case 0:
+					if len(nb) >= 3 {
+						putU24(nb, len(nb)-3)
+					}
+				case 1:
+					if len(nb) >= 2 {
+						putU16(nb, len(nb)-2)
+					}
+				case 2:
+					if len(nb) >= 1 {
+						nb[0] = byte(len(nb) - 1)
+					}
+				}
+
+				return nb
+			})
+			if changed > 0 {
+				s.Fault(fmt.Sprintf("mangled-in-transit:%d", typ))
+			}
+
+			return out
 		}
 	}
 	pair.StartHandshakes(0)
